@@ -249,7 +249,7 @@ def run(ctx):
     # process/boot time stream (shape + monotonicity)
     stream_msg = {"type": 0, "line": 1, "file": b"f.cpp", "func": b"void f()", "cat": b"c", "text": "x", "attrs": []}
     lines.append("P stream %s 50 %s" % (hexs("%{time process}|%{time boot}"), " ".join(enc_msg(stream_msg) for _ in range(50))))
-    results, crashes = fmtdrv.run_cases(ctx, "san", lines, chunk=500, lags=fmtdrv.LAGS, tzs=fmtdrv.TZS)
+    results, crashes = fmtdrv.run_cases(ctx, "san", lines, chunk=500, lags=fmtdrv.LAGS, tzs=fmtdrv.TZS, uptimes=fmtdrv.UPTIMES)
     crashed = set()
     for cid, line, kind, err in crashes:
         crashed.add(cid)
